@@ -294,3 +294,20 @@ prop("C19",
          {"name": "main", "build": "fast", "bin": "c19"},
          {"name": "nostd", "build": "nostd", "bin": "c19"},
      ])
+
+prop("C03",
+     technique="runtime monitoring: spec oracle (convert -> native op -> convert back in vmon::spec) for the sample operations over structured/exhaustive values; per-channel consistency monitor for every Frame method at every width 1..=32; Miri stage for the unsafe frame code",
+     level_text=("Sample level, 14 formats: every value of the 8/16-bit formats and structured + 2 000 / 60 000 random values of the wider ones x structured and random offsets and "
+                 "gains: add_amp(0), mul_amp(0.0), mul_amp(1.0) (exact or within the float companion's precision), general add_amp/mul_amp, to_signed/to_float against an "
+                 "independent spec; out-of-domain cases (exact intermediate outside the signed range / [-1,1)) are skipped and counted. Frame level: every N in 1..=32 x "
+                 "formats {u8, i16, I24, f64} (+ {u32, U48, i64, f32}) with pairwise-distinct channels: map (call order), zip_map (pairing), offset/scale/add/mul, "
+                 "signed/float conversion, EQUILIBRIUM, CHANNELS, from_fn (order), from_samples for iterator lengths 0..=N+2 (None iff short; items consumed), channels() "
+                 "with len(), channels_ref/mut (both directions), channel(i)/channel_mut(i) for i in 0..N+2. Mono: all 14 sample types as frames vs [S;1]. Miri runs the "
+                 "frame level (MaybeUninit fill, unchecked channel access). Exploration: values are unbounded for the wide formats."),
+     level_note="trusted: vmon::spec conversions (unit-tested; validated against the crate by C01/C02 from the other side); the frame level trusts the sample operations it applies per channel (validated by the sample level)",
+     rule=("cases are (format, value, offset/gain) at the sample level and (format, N, method) at the frame level; non-trivial = sample values other than the doc-test "
+           "points, frame cases with N >= 5 or a format other than f32/u8; distinct by hash of (format, value) / (format, N); evaluations = individual comparisons"),
+     stages=[
+         {"name": "main", "build": "fast", "bin": "c03"},
+         {"name": "miri", "build": "miri-sb", "bin": "c03", "shards": {"quick": 8, "thorough": 16}, "timeout": {"quick": 1500, "thorough": 7200}},
+     ])
